@@ -1929,10 +1929,12 @@ Vaddtagref(int32 vkey, /* IN: vgroup key */
     if (NULL == (v = (vginstance_t *)HAatom_object(vkey)))
         HGOTO_ERROR(DFE_NOVS, FAIL);
 
-    /* get vgroup itself and check */
+    /* get vgroup itself and check; a member is added through a write attachment */
     vg = v->vg;
     if (vg == NULL)
         HGOTO_ERROR(DFE_BADPTR, FAIL);
+    if (vg->access != 'w')
+        HGOTO_ERROR(DFE_BADACC, FAIL);
 
 #ifdef NO_DUPLICATES
     /* SD interface needs duplication if two dims have the same name.
